@@ -152,6 +152,8 @@ pub fn form_text(form: &str) -> &'static str {
         "BLOCK_TIGHT" => "/*c*/",
         "NESTED" => "/*a/*b*/c*/",
         "NESTED_SLASH" => "/*a/*/b*/c*/",
+        "LINE_ANON" => " -- Anonymous placeholder\n",
+        "INLINE_INNER" => "-- Inner type --",
         "BLOCK_STARS" => "/**c**/",
         "NESTED_STAR" => "/*a/*b*/*c*/",
         "BLOCK_QUOTES" => " /* \"quoted\" { braces } 'x' */ ",
@@ -330,7 +332,7 @@ pub fn drive(args: &[String]) -> i32 {
         events.extend(gen);
     }
     // 2. sweeps: every boundary of an input at once with one form, and random subsets with random forms
-    let forms: Vec<&str> = vec!["SP", "TAB", "LF", "CRLF", "LINE", "LINE_NOSPACE", "INLINE", "INLINE_TIGHT", "BLOCK", "BLOCK_TIGHT", "NESTED", "NESTED_SLASH", "BLOCK_STARS", "NESTED_STAR",
+    let forms: Vec<&str> = vec!["SP", "TAB", "LF", "CRLF", "LINE", "LINE_NOSPACE", "INLINE", "INLINE_TIGHT", "BLOCK", "BLOCK_TIGHT", "NESTED", "NESTED_SLASH", "BLOCK_STARS", "NESTED_STAR", "LINE_ANON", "INLINE_INNER",
                                 "BLOCK_QUOTES", "LINE_KEYWORDS", "BLOCK_NONASCII", "MIXED"];
     let sweep_inputs: Vec<&Input> = ok_inputs.iter().copied().take(40).chain(ok_inputs.iter().copied().skip(nsets)).collect();
     let sweeps = util::par_chunks(&sweep_inputs, 2, util::threads(), |base, chunk| {
